@@ -1,5 +1,5 @@
 """
-Stream `cli` (property C02): the CLI glue of `lcc run` — `lemoncheesecake.cli.commands.run.run_suites_from_project`.
+Stream `cli` (properties C02 and C08): the CLI glue of `lcc run` — `lemoncheesecake.cli.commands.run.run_suites_from_project`.
 
 A generated run-level project (harness/run/gen.py, profile "basic", with teardown-only failures made frequent) is built
 into REAL suites / fixtures (harness/run/build.py) and wrapped into a real `lemoncheesecake.project.Project` subclass
@@ -11,8 +11,16 @@ exit code.
 
 Observation: exit code (or the exception that escaped), canonical final report, `report.is_successful()`, the return
 value of `run_suites` (seam: the module global `lemoncheesecake.project.run_suites` is wrapped for the duration of the
-call), nb_threads really used.  The oracle is C02's sentence evaluated on the final report's statuses only; the Lean
-side (`drivers/Exit.lean`: Model/ExitCode.lean) computes the success flag, the exit code and the thread count.
+call), nb_threads really used, the `raise` acts user code really executed (the interpreter's records).  The oracle is
+C02's sentence evaluated on the final report's statuses only; the Lean side (`drivers/Exit.lean`: Model/ExitCode.lean)
+computes the success flag, the exit code and the thread count.
+
+The stream class is instantiated per property (`prop`): `C02.cli` (mode "verdict": the distribution above) and `C08.cli`
+(mode "abort": most cases are all-passing projects whose ONLY failing acts are Abort* / exceptions raised in teardown
+phases, `--exit-error-on-failure` on in ~80 %, with and without `--stop-on-failure`).  The C08 instance adds C08's last
+sentence to the oracle: whenever user code raised an Abort* (class or project-defined subclass; test thread or
+lcc.Thread) the run is reported unsuccessful — report flag, return value of the run AND exit code under the option.
+Signatures carry the instance's property: `C02/cli/…`, `C08/cli/…`.
 """
 import argparse
 import copy
@@ -36,7 +44,7 @@ import lemoncheesecake.api as lcc
 from obs import schedrec
 from run import build as B
 from run import gen as G
-from run.interp import Interp, ThreadNamer
+from run.interp import Interp, ThreadNamer, unit_str
 
 CLI_TRUSTED = [
     "cli stream: harness/props/_cli.py wraps generated run-level projects into a real lemoncheesecake.project.Project and calls the real "
@@ -46,6 +54,12 @@ CLI_TRUSTED = [
 CLI_RULE = ("cli stream: generated project (40 % with failures planted in teardown phases only) x --exit-error-on-failure / --stop-on-failure / "
             "--force-disabled / --threads / $LCC_THREADS / project.threaded / report-dir source / pre_run+post_run hooks; non-trivial = the run "
             "returned an exit code, >= 2 tests in the report, >= 1 body entered")
+
+CLI_RULE_ABORT = ("cli stream (C08 instance): generated project, 72 % rewritten so that the ONLY failing acts are Abort* (AbortTest / AbortSuite / "
+                  "AbortAllTests or a project-defined subclass; 25 % error log / failed check / exception) raised in teardown phases "
+                  "(teardown_suite, teardown of a session / suite generator fixture; now and then teardown_test, a test-scoped fixture, an "
+                  "lcc.Thread of the teardown) x --exit-error-on-failure (80 %) x --stop-on-failure (40 %) x --threads / $LCC_THREADS 1..8; "
+                  "non-trivial = the run returned an exit code, >= 2 tests in the report, >= 1 body entered")
 
 ENV_KEYS = ("LCC_THREADS", "LCC_REPORT_DIR", "LCC_REPORTING", "LCC_SAVE_REPORT", "LCC_PROJECT", "LCC_PROJECT_FILE")
 FINE = ("passed", "disabled")
@@ -83,18 +97,35 @@ def strip_all_failures(project):
     return p
 
 
-def _teardown_failing_act(rng):
+ABORT_KINDS = ("AbortTest", "AbortSuite", "AbortAllTests")
+
+
+def _abort_act(rng, p_sub=0.3):
+    act = {"a": "raise", "kind": rng.choice(ABORT_KINDS)}
+    if rng.random() < p_sub:
+        act["sub"] = True          # an instance of a project-defined subclass (class EnvironmentDown(lcc.AbortAllTests))
+    return act
+
+
+def _teardown_failing_act(rng, p_abort=0.2):
+    """what fails in a teardown: an error log, a failed check, an unexpected exception, or (share `p_abort`) an Abort*
+    raised by the teardown code itself (`raise lcc.AbortSuite("cannot clean up")`)"""
     r = rng.random()
-    if r < 0.35:
+    rest = 1.0 - p_abort
+    if r < 0.35 * rest:
         return {"a": "log", "level": "error"}
-    if r < 0.65:
+    if r < 0.65 * rest:
         return {"a": "check", "ok": False}
-    return {"a": "raise", "kind": "exc"}
+    if r < rest:
+        return {"a": "raise", "kind": "exc"}
+    return _abort_act(rng)
 
 
-def plant_teardown_failures(project, rng):
+def plant_teardown_failures(project, rng, p_abort=0.2, wide=False):
     """a clean project whose only failing acts sit in teardown phases: teardown_suite hooks of suites that run tests,
-    teardowns of session / suite scoped generator fixtures that are really used"""
+    teardowns of session / suite scoped generator fixtures that are really used; `wide`: now and then also a
+    teardown_test hook / the teardown of a test-scoped generator fixture (the test it belongs to is then failed), and
+    an Abort* raised by an lcc.Thread started in the teardown (it aborts nothing, `Thread.run` logs it)"""
     p = strip_all_failures(project)
     force = p["force_disabled"]
     byname = G.fixtures_by_name(p)
@@ -109,22 +140,33 @@ def plant_teardown_failures(project, rng):
         for t in runs:
             names += t["fixtures"]
         used.update(G.closure(p, names, byname))
+    test_slots = []
     for n in sorted(used):
         fx = byname[n]
         if fx["gen"] and fx["scope"] in ("session", "suite") and not fx["per_thread"]:
             slots.append(("fixture", fx))
-    if not slots:
+        elif fx["gen"] and fx["scope"] == "test" and ("fixture", fx) not in test_slots:
+            test_slots.append(("fixture", fx))
+    if wide:
+        for sp, s, sdis in G.iter_suites(p):
+            if any(force or not (sdis or t["disabled"]) for t in s["tests"]):
+                test_slots.append(("teardown_test", s))
+    if not slots and not (wide and test_slots):
         return p
     fx_slots = [x for x in slots if x[0] == "fixture"]
     chosen = rng.sample(slots, min(len(slots), rng.choice([1, 1, 1, 2])))
     if fx_slots and rng.random() < 0.35:
         chosen = [rng.choice(fx_slots)]          # a fixture teardown alone (session / suite scope)
+    if wide and test_slots and (not chosen or rng.random() < 0.12):
+        chosen = [rng.choice(test_slots)]        # a test-level teardown: the test itself is failed
     for kind, obj in chosen:
-        act = _teardown_failing_act(rng)
-        if kind == "teardown_suite":
-            sc = list(obj["teardown_suite"] or [])
+        act = _teardown_failing_act(rng, p_abort)
+        if wide and act["a"] == "raise" and act["kind"] != "exc" and rng.random() < 0.12:
+            act = {"a": "thread", "script": [act]}
+        if kind in ("teardown_suite", "teardown_test"):
+            sc = list(obj[kind] or [])
             sc.insert(rng.randint(0, len(sc)), act)
-            obj["teardown_suite"] = sc
+            obj[kind] = sc
         else:
             sc = list(obj["teardown"])
             sc.insert(rng.randint(0, len(sc)), act)
@@ -133,10 +175,23 @@ def plant_teardown_failures(project, rng):
     return p
 
 
-def gen_case(rng):
+def gen_case(rng, mode="verdict"):
     project = G.gen_project(rng, "basic")
     r = rng.random()
-    if r < 0.40:
+    p_flag = 0.75
+    if mode == "abort":
+        # C08 instance: the failing acts are mostly Abort* raised in teardown phases of an otherwise all-passing project
+        p_flag = 0.80
+        if r < 0.72:
+            project = plant_teardown_failures(project, rng, p_abort=0.75, wide=True)
+            project["stop_on_failure"] = rng.random() < 0.4
+            shape = "teardown-only"
+        elif r < 0.78:
+            project = strip_all_failures(project)
+            shape = "clean"
+        else:
+            shape = "as-generated"          # aborts anywhere (bodies, hooks, fixture setups), as gen_project plants them
+    elif r < 0.40:
         project = plant_teardown_failures(project, rng)
         shape = "teardown-only"
     elif r < 0.50:
@@ -160,7 +215,7 @@ def gen_case(rng):
         threads_env = str(n) if rng.random() < 0.8 else rng.choice(["0", "-1", "abc", ""])
     hook = lambda: (rng.choice(["ok"] * 10 + ["raise", "usererror"]) if rng.random() < 0.3 else "none")
     cli = {
-        "exit_error_on_failure": rng.random() < 0.75,
+        "exit_error_on_failure": rng.random() < p_flag,
         "threads_cli": threads_cli, "threads_env": threads_env,
         "threaded": rng.random() >= 0.04,
         "report_dir": rng.choice(["cli", "cli", "env", "project"]),
@@ -303,6 +358,8 @@ def run_cli(case, watchdog=40.0):
     argv = build_argv(case, tmp)
     saved_env = {k: os.environ.pop(k) for k in ENV_KEYS if k in os.environ}
     old_instance = Session._instance
+    old_hook = threading.excepthook
+    threading.excepthook = lambda args: None      # lcc.Threads of generated scripts may end with a BaseException: keep stderr quiet
     real_run_suites = LP.run_suites
     out = {}
 
@@ -342,6 +399,7 @@ def run_cli(case, watchdog=40.0):
             os.environ.pop(k, None)
         os.environ.update(saved_env)
         Session._instance = old_instance
+        threading.excepthook = old_hook
     try:
         obs = {"argv": [a.replace(tmp, "<tmp>") for a in argv], "hooks": side["hooks"], "run_suites": side["run_suites"],
                "load_suites": side["load_suites"], "load_fixtures": side["load_fixtures"],
@@ -363,9 +421,35 @@ def run_cli(case, watchdog=40.0):
         with rec.cv:
             trace = list(rec.trace)
         obs["bodies"] = sorted(".".join(r[2][1]) for r in trace if r[0] == "user" and r[2][0] == "body" and r[3] == "enter")
+        obs["raises"] = executed_raises(trace)
         return C.jsonable(obs)
     finally:
         shutil.rmtree(tmp, ignore_errors=True)
+
+
+def executed_raises(trace):
+    """the `raise` acts user code really executed, from the interpreter's records: [unit, kind, where, in lcc.Thread?],
+    one entry per raise act (an exception leaving an attachment block is recorded again by the enclosing unit: only
+    the innermost record — the one that directly follows the act record of a `raise` act — is kept)"""
+    out = []
+    prev = {}
+    for r in trace:
+        if r[0] != "user":
+            continue
+        th, unit, what = r[1], r[2], r[3]
+        if isinstance(what, str) and what.startswith("raise:"):
+            p = prev.get(th)
+            if p is not None and p[0] == unit and p[1].startswith("act:"):
+                top = unit[:4] if unit[0] == "hook" else unit[:3] if unit[0] == "fx" else unit[:2]
+                if top[0] == "fx":
+                    where = "fixture-" + top[2]
+                elif top[0] == "hook":
+                    where = top[2]
+                else:
+                    where = "body"
+                out.append([unit_str(unit), what[len("raise:"):], where, "th" in unit[len(top):]])
+        prev[th] = (unit, what if isinstance(what, str) else "")
+    return out
 
 
 # ------------------------------------------------------------------------------------------------
@@ -395,9 +479,11 @@ def report_items(rep):
     return tests, phases
 
 
-def oracle(case, obs):
+def oracle(case, obs, prop="C02"):
     """C02: the run as a whole is reported successful (return value of the run, report success flag, exit code under
-    --exit-error-on-failure) iff every test and every setup/teardown phase is passed or disabled."""
+    --exit-error-on-failure) iff every test and every setup/teardown phase is passed or disabled.
+    (C08 relies on the same sentence for "--stop-on-failure after the first non-passed result …: the run is reported
+    unsuccessful"; its instance reports under `C08/cli/…`.)"""
     out = []
     rep = obs.get("report")
     if rep is None or "exit" not in obs["outcome"]:
@@ -410,21 +496,58 @@ def oracle(case, obs):
     where = "teardown-phase-only" if bad and all(x in phases and "teardown" in x[0] for x in bad) else \
         ("phase-only" if bad and all(x in phases for x in bad) else "test")
     if obs.get("successful") != expected:
-        out.append(C.Failure("C02/cli/success-flag-differs/" + ("flag-true-despite-failure" if not expected else "flag-false-without-failure"),
+        out.append(C.Failure(prop + "/cli/success-flag-differs/" + ("flag-true-despite-failure" if not expected else "flag-false-without-failure"),
                              "report.is_successful() is %r but the items that are neither passed nor disabled are %r" % (obs.get("successful"), bad[:5])))
     for e in obs["run_suites"]:
         if "returned" in e and e["returned"] != expected:
-            out.append(C.Failure("C02/cli/return-value-differs",
+            out.append(C.Failure(prop + "/cli/return-value-differs",
                                  "run_suites returned %r but the items that are neither passed nor disabled are %r" % (e["returned"], bad[:5])))
     if flag:
         if expected and code != 0:
-            out.append(C.Failure("C02/cli/exit-code-nonzero-without-failure",
+            out.append(C.Failure(prop + "/cli/exit-code-nonzero-without-failure",
                                  "--exit-error-on-failure: exit code %r although every test and phase is passed or disabled" % (code,)))
         if not expected and code == 0:
-            out.append(C.Failure("C02/cli/exit-code-zero-despite-failure/" + where,
+            out.append(C.Failure(prop + "/cli/exit-code-zero-despite-failure/" + where,
                                  "--exit-error-on-failure: exit code 0 although %r" % (bad[:5],)))
     elif code != 0:
-        out.append(C.Failure("C02/cli/exit-code-nonzero-without-option", "exit code %r without --exit-error-on-failure" % (code,)))
+        out.append(C.Failure(prop + "/cli/exit-code-nonzero-without-option", "exit code %r without --exit-error-on-failure" % (code,)))
+    return out
+
+
+TEARDOWN_PLACES = ("teardown_suite", "teardown_test", "fixture-teardown")
+
+
+def oracle_abort(case, obs, prop="C08"):
+    """C08, last sentence: "In all cases … the report is completed and saved, and the run is reported unsuccessful."
+    Whenever user code raised AbortTest / AbortSuite / AbortAllTests (or a project-defined subclass) — in a test body, a
+    hook, a fixture setup or teardown, or an lcc.Thread started by one of them (there it aborts nothing, but what ends an
+    lcc.Thread is an error of the location that started it) — the run must be reported unsuccessful through every
+    channel: `report.is_successful()` is False, `run_suites` returned False, and the exit code under
+    `--exit-error-on-failure` is not 0.  Wherever the abort was raised: in particular in a teardown, once every test of
+    the run has passed and nothing is left to skip."""
+    out = []
+    rep = obs.get("report")
+    if rep is None or "exit" not in obs["outcome"]:
+        return out
+    aborts = [x for x in obs.get("raises", []) if x[1] in ABORT_KINDS]
+    if not aborts:
+        return out
+    tests, _ = report_items(rep)
+    where = "raised-in-teardown" if all(x[2] in TEARDOWN_PLACES for x in aborts) else "raised-before-teardown"
+    if all(t[1] in FINE for t in tests):
+        where += "/all-tests-passed"
+    shown = [[x[0], x[1]] + (["in lcc.Thread"] if x[3] else []) for x in aborts[:4]]
+    if obs.get("successful") is not False:
+        out.append(C.Failure(prop + "/cli/report-successful-after-abort/" + where,
+                             "user code raised %r but report.is_successful() is %r" % (shown, obs.get("successful"))))
+    for e in obs["run_suites"]:
+        if e.get("returned") is True:
+            out.append(C.Failure(prop + "/cli/run-returned-true-after-abort/" + where,
+                                 "user code raised %r but run_suites returned True" % (shown,)))
+    if case["cli"]["exit_error_on_failure"] and obs["outcome"]["exit"] == 0:
+        out.append(C.Failure(prop + "/cli/exit-code-zero-after-abort/" + where,
+                             "--exit-error-on-failure: exit code 0 although user code raised %r (test statuses %r)"
+                             % (shown, sorted({t[1] for t in tests}))))
     return out
 
 
@@ -468,8 +591,58 @@ CORPUS = [
 ]
 
 
+def _fx(name, scope, teardown, **kw):
+    f = {"name": name, "names": None, "scope": scope, "per_thread": False, "params": [], "gen": True,
+         "setup": [{"a": "log", "level": "info"}], "teardown": teardown}
+    f.update(kw)
+    return f
+
+
+def _proj(suites, fixtures=(), n=1, stop=False):
+    return {"fixtures": list(fixtures), "nb_threads": n, "force_disabled": False, "stop_on_failure": stop, "suites": suites}
+
+
+# C08 instance — minimised witnesses, replayed first: every test passes and the ONLY failing act is an Abort* raised by
+# teardown code once nothing is left to skip
+CORPUS_ABORT = [
+    # AbortSuite raised by teardown_suite (two suites, the second one still runs: AbortSuite only concerns its own suite)
+    {"shape": "teardown-only", "cli": _cli(threads_cli=1),
+     "project": _proj([_suite("first", [_test("t1", 1), _test("t2", 2)],
+                              teardown_suite=[{"a": "log", "level": "info"}, {"a": "raise", "kind": "AbortSuite"}]),
+                       _suite("second", [_test("t3", 1)], rank=2)])},
+    # AbortAllTests raised by the teardown of a session fixture (3 workers, --stop-on-failure: nothing is left to skip)
+    {"shape": "teardown-only", "cli": _cli(threads_cli=3),
+     "project": _proj([_suite("first", [_test("t1", 1, fixtures=["backend"]), _test("t2", 2)]),
+                       _suite("second", [_test("t3", 1, fixtures=["backend"])], rank=2)],
+                      fixtures=[_fx("backend", "session", [{"a": "raise", "kind": "AbortAllTests"}])], n=3, stop=True)},
+    # AbortTest raised by teardown_suite
+    {"shape": "teardown-only", "cli": _cli(threads_env="2", report_dir="project"),
+     "project": _proj([_suite("first", [_test("t1", 1), _test("t2", 2, disabled=True)],
+                              setup_suite={"params": [], "script": [{"a": "log", "level": "info"}]},
+                              teardown_suite=[{"a": "raise", "kind": "AbortTest"}])], n=2)},
+    # a project-defined subclass of AbortAllTests raised by the teardown of a suite fixture of the LAST suite
+    {"shape": "teardown-only", "cli": _cli(threads_cli=1),
+     "project": _proj([_suite("first", [_test("t1", 1)]),
+                       _suite("second", [_test("t2", 1, fixtures=["db"])], rank=2)],
+                      fixtures=[_fx("db", "suite", [{"a": "raise", "kind": "AbortAllTests", "sub": True}])])},
+    # AbortSuite raised inside an lcc.Thread started by teardown_suite: aborts nothing, still an error of the teardown
+    {"shape": "teardown-only", "cli": _cli(threads_cli=1),
+     "project": _proj([_suite("first", [_test("t1", 1), _test("t2", 2)],
+                              teardown_suite=[{"a": "thread", "script": [{"a": "raise", "kind": "AbortSuite"}]}])])},
+    # the all-good twin, and the same without the option
+    {"shape": "clean", "cli": _cli(threads_cli=1),
+     "project": _proj([_suite("first", [_test("t1", 1), _test("t2", 2)], teardown_suite=[{"a": "log", "level": "info"}])])},
+    {"shape": "teardown-only", "cli": _cli(threads_cli=1, exit_error_on_failure=False),
+     "project": _proj([_suite("first", [_test("t1", 1)], teardown_suite=[{"a": "raise", "kind": "AbortSuite"}])])},
+]
+
+
 class CliStream(C.Stream):
+    """instantiate per property: `prop` prefixes the oracle signatures; `mode` "verdict" (C02: the verdict iff) or
+    "abort" (C08: abort-in-teardown cases frequent + "an abort makes the run unsuccessful")"""
     name = "cli"
+    prop = "C02"
+    mode = "verdict"
     driver = "drivers/Exit.lean"
     quick_cases = 400
     quick_seconds = 18
@@ -482,13 +655,16 @@ class CliStream(C.Stream):
         real_parser()
 
     def gen(self, rng, i):
-        return gen_case(rng)
+        return gen_case(rng, self.mode)
 
     def impl(self, case):
         return run_cli(case)
 
     def oracle(self, case, obs):
-        return oracle(case, obs)
+        out = oracle(case, obs, self.prop)
+        if self.mode == "abort":
+            out = oracle_abort(case, obs, self.prop) + out
+        return out
 
     def request(self, case, obs):
         if obs.get("report") is None:
@@ -576,6 +752,25 @@ class CliStream(C.Stream):
                 f.append("some-test-not-passed")
             else:
                 f.append("everything-passed-or-disabled")
+            aborts = [x for x in obs.get("raises", []) if x[1] in ABORT_KINDS]
+            if aborts:
+                f.append("abort-raised")
+                in_td = all(x[2] in TEARDOWN_PLACES for x in aborts)
+                if in_td:
+                    f.append("abort-raised-in-teardown-only")
+                    for x in aborts:
+                        f.append("abort-in-teardown:%s:%s" % (x[2], x[1]))
+                if any(x[3] for x in aborts):
+                    f.append("abort-raised-in-lcc.Thread")
+                subs = self._sub_kinds(case)
+                if subs:
+                    f.append("abort-subclass-raised-somewhere")
+                if in_td and tests_fine:
+                    f.append("abort-in-teardown&all-tests-passed")
+                    f.append("abort-in-teardown&all-tests-passed&flag=" + str(cli["exit_error_on_failure"]).lower())
+                    if cli["exit_error_on_failure"]:
+                        f.append("abort-in-teardown&all-tests-passed&flag=true&stop-on-failure=" + str(bool(case["project"]["stop_on_failure"])).lower())
+                        f.append("abort-in-teardown&all-tests-passed&flag=true&n=%s" % obs.get("nb_threads"))
             if any(t[1] == "disabled" for t in tests):
                 f.append("has-disabled-test")
             if any(t[1] == "skipped" for t in tests):
@@ -585,6 +780,11 @@ class CliStream(C.Stream):
             if case["project"]["force_disabled"]:
                 f.append("--force-disabled")
         return f
+
+    @staticmethod
+    def _sub_kinds(case):
+        return sorted({a["kind"] for _, sc in G.scripts_of(case["project"]) for a in G.iter_acts(sc)
+                       if a["a"] == "raise" and a.get("sub")})
 
     def shrink(self, case):
         for q in G.shrink_project(case["project"]):
